@@ -1219,10 +1219,91 @@ func TestRangeProofOutOfRange(t *testing.T) {
 	}
 }
 
-// A genuine Monero Bulletproof (the one embedded in the repository's own
-// ringct/rctsigs_test.go vector) is covered by running that package's tests
-// through the overlay (TestVerRctSimple); here we only make sure that garbage
-// which is not a stand-in proof is handed to the genuine verifier and rejected.
+// genuineBulletproof is the proof embedded in the repository's own test vector
+// (/repo/libs/cryptonote/ringct/rctsigs_test.go): a real Monero Bulletproof
+// over two outputs produced by the C++ library.
+func genuineBulletproof() *lk.Bulletproof {
+	return &lk.Bulletproof{
+		V: lk.KeyV{
+			{121, 201, 148, 20, 165, 225, 8, 37, 186, 117, 239, 0, 3, 148, 76, 241, 86, 55, 38, 123, 182, 35, 115, 126, 76, 56, 186, 191, 23, 80, 177, 49},
+			{26, 147, 229, 167, 215, 242, 199, 47, 231, 16, 233, 227, 242, 178, 70, 89, 248, 248, 207, 138, 54, 17, 16, 176, 107, 247, 101, 177, 77, 58, 37, 148},
+		},
+		A:    hx("95647eb6cd4f4069772856993834342b7f690f59eed1f301f283e8b14405363f"),
+		S:    hx("6b6165b145168b27067b5c0d818eed9a30cccde64992e54173e93dead100cf70"),
+		T1:   hx("55c57232820320b96461891139e66ce1db32c619a60f2025bfc8c548541e8398"),
+		T2:   hx("3bb482fa82c45c48b4eb97d6209e84a5f0cb162b89bba6faa6ec4e902584e90e"),
+		Taux: hx("d66c860c3aefc2ab1b0cf313322301d7e8f3708fdc0c3357a96c90001cbd0304"),
+		Mu:   hx("13bca9af218a7b338f545ce41207a569bc2782a287579c540bc5512fa1df160c"),
+		L: lk.KeyV{
+			hx("0e8c4d421ba587014396c7b6a4d2d8f712e36b1e77ab6c7a7af392323730de47"),
+			hx("076f2b793683ed05185a84f709f68e2d690cd23f173c34644a0d671e6b2c4f11"),
+			hx("f8d7f6e2daab96fd7af323c6ee151726160e4909ca8daf41eacfca18284b7ae0"),
+			hx("a739997085ca3edae4626e071f4fedce3932d588d3b50a3243ad477363c954f4"),
+			hx("528c36c85da0f9d2bc9717d1dcc8c32d87dae876828d7a0efb613692165378fd"),
+			hx("4a0aa4c991d3fb8d43ddc09ae38fe997a639021ad59809655e07822f800a294b"),
+			hx("56432f98804f3cfcaf8e01b0754f6238edfb2a3acdccd9ce0d467c77002f6e24"),
+		},
+		R: lk.KeyV{
+			hx("b6568f296b10a8d1013f2678318696d0e8ee789a8068d58132b3d23cf33ebfa1"),
+			hx("aef046121dafb1ab0b413f9af87e2fa5d778ff1672ea5a4cd35816dcb3a785e5"),
+			hx("9a6bd083d81492bd6eabba028453d9f135ecd89eed568986570c2e2d5ede9193"),
+			hx("3a0e619c330e2e4115eb6d058bebf325488a41e0baf244079506f49a143c557e"),
+			hx("c1e91c8453be0d937940612f0f12791bbf88b792997ba1992f5cccad2966f76a"),
+			hx("cf789a52460ff1849068528f5703c06776003e7986b83377f1cedb990e18f1b9"),
+			hx("931a749bbc369277d2fc5d19ff815c61c28868437ccc6e5e27e357227785086e"),
+		},
+		Aa: hx("759d97bf74dd6d7764a33f81a8a0877a4d390937c531eefdedbb4ee7353d4905"),
+		B:  hx("040a261a96e8505eec140dd99bc08be9feb8ab19eca1fa0a595671666f656b01"),
+		T:  hx("fd8f60033729870acc31d32fb7a5592f869d2f697c80f0e1f8c3826f85559406"),
+	}
+}
+
+// The verifier also implements genuine Monero Bulletproof verification; the
+// real proof must verify and every modification of it must be rejected.
+func TestGenuineBulletproofVerifier(t *testing.T) {
+	p := genuineBulletproof()
+	if ok, err := xcrypto.TlvVerBulletproof(p); err != nil || !ok {
+		t.Fatalf("genuine Monero Bulletproof rejected: ok=%v err=%v", ok, err)
+	}
+	if ok, _ := xcrypto.TlvVerBulletproof128(p); ok {
+		t.Fatalf("genuine 64-bit Bulletproof accepted as a 128-bit proof")
+	}
+	n := 0
+	flipEveryByte(p, func(name string) {
+		n++
+		if n%5 != 0 { // every fifth byte position keeps the test fast
+			return
+		}
+		if ok, _ := xcrypto.TlvVerBulletproof(p); ok {
+			t.Errorf("genuine Bulletproof verifies after flipping %s", name)
+		}
+	})
+	// swapped commitments, dropped commitment, truncated rounds
+	q := genuineBulletproof()
+	q.V[0], q.V[1] = q.V[1], q.V[0]
+	if ok, _ := xcrypto.TlvVerBulletproof(q); ok {
+		t.Errorf("genuine Bulletproof verifies with swapped commitments")
+	}
+	q = genuineBulletproof()
+	q.V = q.V[:1]
+	if ok, _ := xcrypto.TlvVerBulletproof(q); ok {
+		t.Errorf("genuine Bulletproof verifies with a dropped commitment")
+	}
+	q = genuineBulletproof()
+	q.L, q.R = q.L[:6], q.R[:6]
+	if ok, _ := xcrypto.TlvVerBulletproof(q); ok {
+		t.Errorf("genuine Bulletproof verifies with truncated L/R")
+	}
+	// non canonical scalar
+	q = genuineBulletproof()
+	q.Taux = addLE(q.Taux, ringct.L)
+	if ok, _ := xcrypto.TlvVerBulletproof(q); ok {
+		t.Errorf("genuine Bulletproof verifies with a non canonical taux")
+	}
+}
+
+// Garbage which is not a stand-in proof is handed to the genuine verifier and
+// rejected.
 func TestRangeProofGarbageRejected(t *testing.T) {
 	seedRand(t, 16)
 	p := &lk.Bulletproof{V: lk.KeyV{xcrypto.ScalarmultBase(d2h(3))}, L: make(lk.KeyV, 6), R: make(lk.KeyV, 6)}
